@@ -704,3 +704,372 @@ def rule_endguard(env, shared):
                               "(facts: %s): chunks can be produced at or after the end" % (
                                   u.kind, u.world["name"], [(f[0], fmt(f[1])[:40], fmt(f[2])[:40]) for f in pf])))
     return out
+
+
+# ---------------------------------------------------------------------------------------------------
+def _some_blocks(env, b, ctx, adt_suffix="NextChunk::NextChunk"):
+    """(bb, stmt, agg term) for `Some(NextChunk{..})`-like constructions: blocks that build the chunk struct"""
+    out = []
+    for bi, blk in enumerate(b.blocks):
+        if blk["cleanup"]:
+            continue
+        for s in blk["stmts"]:
+            if s["k"] == "assign" and s["rv"]["k"] == "aggregate" and s["rv"].get("ak") == "adt" \
+                    and ("%s::%s" % (s["rv"]["adt"], s["rv"]["variant_name"])).endswith(adt_suffix):
+                out.append((bi, s, env.ev.rvalue(ctx, s["rv"])))
+    return out
+
+
+def rule_nonempty(env, shared):
+    """NONEMPTY: a chunk pull that returns Some returns a non-empty chunk."""
+    m = _m1(env)
+    out = []
+    ev = env.ev
+    R = env.R
+    for u in m.units:
+        if u.kind == "single":
+            continue
+        base = m.base_impl(u.world)
+        kind = R.impl[base]["kind"]
+        rs = u.reserves()
+        if len(rs) != 1:
+            continue
+        r = list(rs.keys())[0]
+        isbegin = begin_forms(ev, u.ctx, r, None)
+        key = "NONEMPTY|%s" % u.label
+        if u.world.get("inner"):
+            # adaptors rebuild the chunk of the inner pull; FWD decides that they forward — nothing to add here
+            continue
+        if u.kind == "chunk":
+            # the block(s) of the unit body that build NextChunk
+            blocks = []
+            for ub in u.bodies:
+                uctx = env.ctx(ub, u.self_adt, u.world)
+                for (bi, s, agg) in _some_blocks(env, ub, uctx):
+                    blocks.append((bi, s, agg, ub, uctx))
+            if not blocks:
+                out.append(Ob("NONEMPTY", key, "viol", u.body.file_line(), "cannot find where the chunk pull of %s builds its "
+                              "NextChunk" % u.world["name"]))
+                continue
+            for (bi, s, agg, ub, uctx) in blocks:
+                loc = ub.file_line(s["loc"])
+                facts = [tuple(m.canon(x) if isinstance(x, tuple) else x for x in f) for f in block_facts(ev, uctx, bi)]
+                good = False
+                why = ""
+                if kind == "ticket":
+                    for f in facts:
+                        if f[0] == "ne" and len(f) == 3 and f[2] == ("int", 0) and f[1][0] == "call" and f[1][1] == "len":
+                            good = True
+                            why = "built only when the collected buffer is not empty"
+                else:
+                    B = m.canon(unref(agg[2][0]))
+                    # the actual extent end(s) of the access
+                    ends = []
+                    for e in u.events:
+                        if e.kind != "call":
+                            continue
+                        mdl = e.info.get("model")
+                        a = e.args
+                        if mdl == "index" and len(a) == 2 and R.classify(a[0])[1] in R.impl:
+                            rg = unref(a[1])
+                            if rg[0] == "agg":
+                                ends.append(m.canon(unref(rg[2][1])))
+                        elif e.callee.key.endswith("Vec::from_raw_parts") and len(a) == 3:
+                            ln = m.canon(unref(a[1]))
+                            if ln[0] == "bin" and ln[1] == "Sub":
+                                ends.append(ln[2])
+                        elif mdl == "Iterator::map" and a:
+                            rg = unref(a[0])
+                            if rg[0] == "agg" and rg[1].endswith("Range::Range"):
+                                ends.append(("range", m.canon(unref(rg[2][0])), m.canon(unref(rg[2][1]))))
+                    p = CProver(facts, ev, u.ctx, payload_facts={m.canon(k): [tuple(m.canon(x) if isinstance(x, tuple) else x
+                                                                                  for x in f) for f in v]
+                                                                  for k, v in ev.payload_facts.items()})
+                    for E in ends:
+                        if E[0] == "range":
+                            bv, evl = E[1], E[2]
+                            # fact ne(B, evl - s) with bv = B + s
+                            for f in facts:
+                                if f[0] == "ne" and len(f) == 3:
+                                    for x, y in ((f[1], f[2]), (f[2], f[1])):
+                                        if x == B and y[0] == "bin" and y[1] == "Sub" and y[2] == evl and bv[0] == "bin" \
+                                                and bv[1] == "Add" and y[3] in (bv[2], bv[3]) and B in (bv[2], bv[3]):
+                                            good = True
+                                            why = "begin != end index, where end value >= begin value by construction"
+                        else:
+                            # E may be a clamped version of the end used in the guard: strip `max(., B)`
+                            if p.lt(B, E):
+                                good = True
+                                why = "begin < end of the accessed extent is entailed"
+                            else:
+                                # guard on max(M, B) with the access using M clamped by an equal length
+                                for f in facts:
+                                    if f[0] == "ne" and len(f) == 3:
+                                        for x, y in ((f[1], f[2]), (f[2], f[1])):
+                                            if x == B and y[0] == "call" and y[1] == "max" and E in y[2]:
+                                                good = True
+                                                why = "begin != max(end, begin) entails begin < end"
+                if good:
+                    out.append(Ob("NONEMPTY", key, "ok", loc, why, True))
+                else:
+                    out.append(Ob("NONEMPTY", key, "viol", loc,
+                                  "the one-shot chunk pull of %s can return Some with an empty chunk: no guard entails "
+                                  "begin < end of the extent it hands out" % u.world["name"]))
+        else:
+            # buffered: the puller's `pull` decides; it runs as continuation of the reservation helper
+            pull = R.method_body(R.T_CHUNK, "pull", u.world["puller"])
+            if pull is None:
+                out.append(Ob("NONEMPTY", key, "viol", "-", "puller of %s not found" % u.world["name"]))
+                continue
+            if kind == "ticket":
+                continue  # EXACT decides the ticket puller
+            # find the event(s) in the unit that produce the chunk extent and require begin < LEN there
+            L = unit_len(u)
+            Lc = m.canon(L) if L is not None else None
+            rc = m.canon(r)
+            found = False
+            for e in u.events:
+                if e.kind != "call":
+                    continue
+                mdl = e.info.get("model")
+                a = e.args
+                is_ext = (mdl == "index" and len(a) == 2 and R.classify(a[0])[1] in R.impl) or \
+                    e.callee.key.endswith("Vec::from_raw_parts") or \
+                    (mdl == "Iterator::map" and a and unref(a[0])[0] == "agg" and unref(a[0])[1].endswith("Range::Range"))
+                if not is_ext:
+                    continue
+                found = True
+                p = cprover(m, env, e)
+                if Lc is not None and p.lt(rc, Lc):
+                    out.append(Ob("NONEMPTY", key, "ok", e.loc(),
+                                  "buffered chunk is built only under begin < LEN (and chunk size >= 1 by ZERO.a)", True))
+                else:
+                    # range: guard on the value image begin+start < end
+                    okv = False
+                    for f in p.facts:
+                        if f[0] == "lt" and len(f) == 3 and f[1][0] == "bin" and f[1][1] == "Add" and rc in (f[1][2], f[1][3]):
+                            okv = True
+                    if okv:
+                        out.append(Ob("NONEMPTY", key, "ok", e.loc(),
+                                      "buffered chunk is built only under begin value < end (and chunk size >= 1)", True))
+                    else:
+                        out.append(Ob("NONEMPTY", key, "viol", e.loc(),
+                                      "the buffered pull of %s can build an empty chunk: begin < LEN is not known where the "
+                                      "extent is formed" % u.world["name"]))
+                break
+            if not found:
+                out.append(Ob("NONEMPTY", key, "viol", pull.file_line(), "cannot find the extent of the buffered pull of %s"
+                              % u.world["name"]))
+    return out
+
+
+def rule_exact(env, shared):
+    """EXACT: the buffered chunk of the wrapper over an arbitrary iterator yields exactly the elements pulled for this
+    chunk: slots 0..filled of the re-used buffer, `filled` counting one stored element per increment, iteration under
+    consumed < filled, len() = filled - consumed."""
+    m = _m1(env)
+    out = []
+    R, F, ev = env.R, env.F, env.ev
+    if R.ticket is None:
+        return [Ob("EXACT", "EXACT|anchor", "viol", "-", "ticket implementor not found")]
+    w = env.world_of(R.ticket)
+    pull = R.method_body(R.T_CHUNK, "pull", w["puller"])
+    if pull is None:
+        return [Ob("EXACT", "EXACT|anchor", "viol", "-", "ticket puller not found")]
+    ctx = env.ctx(pull, w["puller"], w)
+    res = ev.payload(ctx, ev.local(ctx, 0))
+    loc = pull.file_line()
+    if not (res[0] == "agg" and "::" in res[1] and len(res[2]) >= 3):
+        return [Ob("EXACT", "EXACT|chunk-struct", "viol", loc, "cannot identify the chunk iterator built by the ticket puller: %s"
+                   % fmt(res)[:120])]
+    ci_adt = res[1].rsplit("::", 1)[0]
+    fields = res[2]
+    filled = [i for i, t in enumerate(fields) if t[0] == "phi" and ("int", 0) in t[1]
+              and any(x[0] == "bin" and x[1] == "Add" and x[3] == ("int", 1) for x in t[1])]
+    consumed = [i for i, t in enumerate(fields) if t == ("int", 0)]
+    if len(filled) != 1 or len(consumed) != 1:
+        return [Ob("EXACT", "EXACT|chunk-struct", "viol", loc,
+                   "the chunk iterator of the ticket puller is not built as {buffer, filled = loop counter, consumed = 0}: %s"
+                   % fmt(res)[:160])]
+    fi, ci = filled[0], consumed[0]
+    out.append(Ob("EXACT", "EXACT|chunk-struct", "ok", loc, "chunk = {buffer, filled: loop counter, consumed: 0}", True))
+    # (E1) the counter increment is dominated by a store into slot[counter] of the payload of next()
+    cnt_local = None
+    for bi, blk in enumerate(pull.blocks):
+        for s in blk["stmts"]:
+            if s["k"] == "assign" and s["rv"]["k"] == "binop" and s["rv"]["op"].startswith("Add") \
+                    and ev.operand(ctx, s["rv"]["b"]) == ("int", 1) and ev.operand(ctx, s["rv"]["a"]) == fields[fi]:
+                cnt_local = (bi, s)
+    k1 = "EXACT|one-store-per-increment"
+    if cnt_local is None:
+        out.append(Ob("EXACT", k1, "viol", loc, "cannot find the increment of the filled counter"))
+    else:
+        bi, s = cnt_local
+        dom = pull.dominators().get(bi, set())
+        stored = False
+        for d in dom | {bi}:
+            c = pull.callee(d)
+            if c is not None and not c.indirect and c.trait == "std::ops::IndexMut":
+                t = pull.term(d)
+                idx = unref(ev.operand(ctx, t["args"][1]))
+                if idx == fields[fi]:
+                    stored = True
+        somef = any(f[0] == "is_some" and f[2] is True and "Iterator::next" in fmt(f[1])
+                    for f in block_facts(ev, ctx, bi))
+        if stored and somef:
+            out.append(Ob("EXACT", k1, "ok", pull.file_line(s["loc"]),
+                          "each increment follows a store into slot[filled] of an element just pulled", True))
+        else:
+            out.append(Ob("EXACT", k1, "viol", pull.file_line(s["loc"]),
+                          "the filled counter is incremented without a dominating store of the pulled element into "
+                          "slot[filled] (stored=%s, under Some(next)=%s)" % (stored, somef)))
+    # (E2) zero filled -> None
+    k2 = "EXACT|zero-filled-is-None"
+    good = False
+    for (bi, s, agg) in _some_blocks(env, pull, ctx, ci_adt.split("::")[-1] + "::" + res[1].rsplit("::", 1)[1]):
+        for f in block_facts(ev, ctx, bi):
+            if f[0] == "ne" and len(f) == 3 and f[1] == fields[fi] and f[2] == ("int", 0):
+                good = True
+    out.append(Ob("EXACT", k2, "ok" if good else "viol", loc,
+                  "a chunk is returned only when at least one element was stored" if good else
+                  "the ticket puller can return Some with zero stored elements (empty chunk)", True))
+    # (E3) the chunk iterator: reads slot[consumed] only under consumed < filled; len = filled - consumed
+    nb = F.method_impl("std::iter::Iterator", "next", ci_adt)
+    nb = F.bodies.get(nb) if nb else None
+    lb = F.method_impl("std::iter::ExactSizeIterator", "len", ci_adt)
+    lb = F.bodies.get(lb) if lb else None
+    k3 = "EXACT|next-reads-under-consumed<filled"
+    if nb is None:
+        out.append(Ob("EXACT", k3, "viol", loc, "Iterator::next of the chunk iterator not found"))
+    else:
+        nctx = env.ctx(nb, ci_adt, None)
+        nsites = 0
+        bad = None
+        for bi, blk in enumerate(nb.blocks):
+            if blk["cleanup"]:
+                continue
+            places = []
+            for s in blk["stmts"]:
+                if s["k"] == "assign":
+                    rv = s["rv"]
+                    if "place" in rv:
+                        places.append((rv["place"], s["loc"]))
+                    places.append((s["place"], s["loc"]))
+            for (pl, l) in places:
+                for el in pl["p"]:
+                    if el["k"] == "index":
+                        nsites += 1
+                        idx = unref(ev.local(nctx, el["l"]))
+                        fs = block_facts(ev, nctx, bi)
+                        okk = False
+                        if idx[0] == "field" and idx[2] == ci:
+                            for f in fs:
+                                if f[0] == "lt" and len(f) == 3 and f[1] == idx and f[2][0] == "field" and f[2][2] == fi \
+                                        and f[2][1] == idx[1]:
+                                    okk = True
+                        if not okk:
+                            bad = (nb.file_line(l), fmt(idx))
+        if nsites == 0:
+            out.append(Ob("EXACT", k3, "viol", nb.file_line(), "no buffer read found in the chunk iterator's next"))
+        elif bad:
+            out.append(Ob("EXACT", k3, "viol", bad[0],
+                          "the chunk iterator reads buffer slot [%s] without the guard consumed < filled: stale elements of a "
+                          "partly consumed previous chunk can be yielded, and more than len() elements" % bad[1]))
+        else:
+            out.append(Ob("EXACT", k3, "ok", nb.file_line(), "buffer slots are read at [consumed] under consumed < filled", True))
+    k4 = "EXACT|len=filled-consumed"
+    if lb is None:
+        out.append(Ob("EXACT", k4, "viol", loc, "ExactSizeIterator::len of the chunk iterator not found"))
+    else:
+        lctx = env.ctx(lb, ci_adt, None)
+        t = unref(ev.local(lctx, 0))
+        okk = t[0] == "bin" and t[1] == "Sub" and t[2][0] == "field" and t[2][2] == fi and t[3][0] == "field" \
+            and t[3][2] == ci and t[2][1] == t[3][1]
+        if not okk and t[0] == "call" and t[1] == "saturating_sub":
+            a, b = t[2]
+            okk = a[0] == "field" and a[2] == fi and b[0] == "field" and b[2] == ci
+        out.append(Ob("EXACT", k4, "ok" if okk else "viol", lb.file_line(),
+                      "len() = filled - consumed" if okk else
+                      "len() of the chunk iterator is not filled - consumed: %s" % fmt(t)[:100], True))
+    return out
+
+
+# ---------------------------------------------------------------------------------------------------
+def rule_atom(env, shared):
+    """ATOM: who may write the counters. (a) only fetch_add / load / store are used on the crate's atomics;
+    (b) a plain store to a position counter happens only in early_exit implementations or with exclusive access;
+    (c) a value *loaded* from a position counter never becomes an access index or a reported index."""
+    from r_ticket import receiver_kind, owner_of
+    m = _m1(env)
+    out = []
+    R, F = env.R, env.F
+    seen = set()
+    n_atomic = 0
+    for b in F.non_test_bodies():
+        sa = F.impl_self_adt(b)
+        world = None
+        for w in env.worlds():
+            if w["iter"] == sa or w["puller"] == sa:
+                world = w
+        for e in env.flat_events(b, sa, world):
+            if e.kind != "atomic":
+                continue
+            own = owner_of(env, e, b)
+            if own.def_ != b.def_:
+                continue
+            n_atomic += 1
+            op = e.info["op"]
+            role, adt = R.classify(e.info["place"])
+            k = "ATOM.a|%s|%s(%s)" % (env.fname(own), op, role or "atomic")
+            if k in seen:
+                continue
+            seen.add(k)
+            if op not in ("fetch_add", "load", "store"):
+                out.append(Ob("ATOM.a", k, "viol", e.loc(),
+                              "unexpected mutator %s on an atomic of the iteration protocol: the reservation argument relies on "
+                              "fetch_add/load/store only" % op))
+                continue
+            out.append(Ob("ATOM.a", k, "ok", e.loc(), "%s on %s" % (op, role or "an atomic")))
+            if op == "store" and role == "pos":
+                info = own.info or {}
+                is_exit = info.get("name") == "early_exit" and norm_path(info.get("trait")) == R.T_ATOMIC
+                rk = receiver_kind(own, F)
+                k2 = "ATOM.b|%s|store(pos)" % env.fname(own)
+                if is_exit:
+                    out.append(Ob("ATOM.b", k2, "ok", e.loc(), "position counter is stored by an early_exit implementation"))
+                elif rk in ("value", "mut"):
+                    out.append(Ob("ATOM.b", k2, "ok", e.loc(), "position counter is stored with exclusive access (%s self)" % rk))
+                else:
+                    out.append(Ob("ATOM.b", k2, "viol", e.loc(),
+                                  "the position counter of %s is overwritten by a plain store in %s, which runs concurrently "
+                                  "with pulls: reservations made in between are lost or handed out twice" % (
+                                      env.sname(adt), env.fname(own))))
+    # (c) loaded counter values must not reach indices
+    for u in m.units:
+        res = u.result()
+        idx, val, kind = _idx_field(res)
+        k = "ATOM.c|%s" % u.label
+        bad = None
+        terms = [("reported index", idx)] if idx is not None else []
+        for (e, what, t) in _access_operands(env, u):
+            terms.append((what, t))
+        for what, t in terms:
+            for x in subterms(t):
+                if x[0] == "atomic" and x[1] == "load":
+                    role, adt = R.classify(x[2])
+                    if role in ("pos", "serving"):
+                        bad = (what, x)
+        if bad:
+            out.append(Ob("ATOM.c", k, "viol", u.body.file_line(),
+                          "the %s of a %s pull of %s derives from a *load* of a shared counter (%s): between the load and its "
+                          "use other threads reserve the same positions" % (bad[0], u.kind, u.world["name"], fmt(bad[1])[:80])))
+        else:
+            out.append(Ob("ATOM.c", k, "ok", u.body.file_line(), "no index derives from a counter load", True))
+    if n_atomic < 8:
+        out.append(Ob("ATOM.a", "ATOM.a|floor", "viol", "-", "only %d atomic operations found (anchor lost)" % n_atomic))
+    return out
+
+
+def norm_path(p):
+    from facts import norm_std
+    return norm_std(p) if p else p
